@@ -446,6 +446,62 @@ def rule_HT1(ctx, tier):
                 rr.fail("unexpected-on-explicit-arm", "UNEXPECTED_ERROR is produced on the explicit arm %s" % (fs,), where=ms.span)
         else:
             rr.ok("arm %s -> errors::%s" % (",".join(fs), name), nontrivial=False)
+    # no deadline between the HTTP layer and the internal API: the internal handlers are synchronous (they cannot be cancelled),
+    # so a client-side timeout / limit on the channel or around a call only changes the answer (tonic reports Cancelled /
+    # DeadlineExceeded, which match_status sends to the catch-all code) while the request still takes effect
+    DEADLINE = ("timeout", "set_timeout", "timeout_at", "concurrency_limit", "rate_limit", "connect_timeout")
+    dl = []
+    for bid, b_ in P.bodies.items():
+        if not bid.startswith("teos::api::http::") or "::tests" in bid:
+            continue
+        for bb, t in b_.calls():
+            tg = call_target(t) or ""
+            if tg.split("::")[-1] in DEADLINE and ("tonic::" in tg or "tokio::time::" in tg or "tower::" in tg):
+                dl.append((b_, bb, tg))
+    if not dl:
+        rr.ok("no deadline or limit is put on the calls to the internal API (%d http bodies scanned)" % sum(1 for x in P.bodies if x.startswith("teos::api::http::") and "::tests" not in x))
+    for b_, bb, tg in dl:
+        rr.fail("internal-call-deadline:%s" % tg.split("::")[-1], "the HTTP layer bounds its calls to the internal API with `%s`: when it fires the user gets tonic's Cancelled/DeadlineExceeded status, which has no documented code (catch-all UNEXPECTED_ERROR), and the synchronous handler still completes, so a non-200 answer changes the tower's state" % tg[-70:], where=b_.line_of(bb))
+    # HTTP statuses: everything the layer can answer with is 200, a 4xx or 503 (never another 5xx), and the status a gRPC code is
+    # turned into is the documented one; arms are identified by the error-code constant they carry, whatever the form of the match
+    ALLOWED = {"OK", "BAD_REQUEST", "UNAUTHORIZED", "NOT_FOUND", "SERVICE_UNAVAILABLE", "METHOD_NOT_ALLOWED", "PAYLOAD_TOO_LARGE", "LENGTH_REQUIRED", "UNSUPPORTED_MEDIA_TYPE"}
+    used = {}
+    for bid, b_ in P.bodies.items():
+        if not bid.startswith("teos::api::http::") or "::tests" in bid:
+            continue
+        for bb in b_.rpo():
+            for st in b_.blocks[bb]["s"]:
+                if st["k"] == "assign":
+                    for dname in _const_defs_in(st["rv"]):
+                        if "::StatusCode::" in dname:
+                            used.setdefault(dname.split("::")[-1], (b_, bb))
+            for dname in _const_defs_in(b_.term(bb)):
+                if "::StatusCode::" in dname:
+                    used.setdefault(dname.split("::")[-1], (b_, bb))
+    for name, (b_, bb) in sorted(used.items()):
+        if name in ALLOWED:
+            rr.ok("HTTP status %s is a documented one" % name)
+        else:
+            rr.fail("undocumented-http-status:%s" % name, "the HTTP layer answers with StatusCode::%s; documented answers are 200, 4xx and 503" % name, where=b_.line_of(bb))
+    WANT_HTTP = {"NotFound": "NOT_FOUND", "Unauthenticated": "UNAUTHORIZED", "Unavailable": "SERVICE_UNAVAILABLE"}
+    # status written on an explicit arm (mutable default + per-arm override, or a pair per arm)
+    arm_status = {}
+    for bb in ms.rpo():
+        arms = tuple(sorted(f[2] for f in facts_at(ctx, ms, bb) if f[0] == "variant" and has_call(f[1], "Status::code")))
+        if len(arms) > 1:
+            continue
+        for st in ms.blocks[bb]["s"]:
+            if st["k"] == "assign":
+                for dname in _const_defs_in(st["rv"]):
+                    if "::StatusCode::" in dname:
+                        arm_status.setdefault(arms[0] if arms else "<default>", set()).add(dname.split("::")[-1])
+    for code in sorted(matched):
+        got_ = arm_status.get(code) or arm_status.get("<default>") or {"<none>"}
+        exp_ = WANT_HTTP.get(code, "BAD_REQUEST")
+        if got_ == {exp_}:
+            rr.ok("Code::%s -> HTTP %s" % (code, exp_))
+        else:
+            rr.fail("http-status-mapping:%s" % code, "Code::%s is answered with HTTP %s, documented: %s" % (code, "/".join(sorted(got_)), exp_), where=ms.span)
     # documented arm values
     want = {"InvalidArgument": "WRONG_FIELD_FORMAT", "NotFound": "APPOINTMENT_NOT_FOUND", "AlreadyExists": "APPOINTMENT_ALREADY_TRIGGERED",
             "ResourceExhausted": "REGISTRATION_RESOURCE_EXHAUSTED", "Unauthenticated": "INVALID_SIGNATURE_OR_SUBSCRIPTION_ERROR", "Unavailable": "SERVICE_UNAVAILABLE"}
